@@ -365,6 +365,9 @@ class Sim:
             elif kind == "op":
                 ctx, fn, label = data
                 handles.append((t, seq, asyncio.Handle(self._run_op, (fn, label), lp, ctx)))
+            elif kind == "op-deferred":
+                ctx, n, fn, label = data
+                handles.append((t, seq, asyncio.Handle(self._hop, (n, fn, label), lp, ctx)))
             elif kind == "busy":
                 self.stats["busy"] += 1
                 lp._now = max(lp._now, t + data)
@@ -398,6 +401,14 @@ class Sim:
     def _run_op(self, fn, label):
         self.rec("op", label[0], label[1:])
         fn()
+
+    def _hop(self, n, fn, label):
+        """run the operation n loop iterations from now (same virtual instant if the loop stays busy): places an
+        operation in the middle of a cascade of call_soon / task steps that a timer or a datagram started"""
+        if n <= 0:
+            self._run_op(fn, label)
+        else:
+            self.loop.call_soon(self._hop, n - 1, fn, label)
 
     def _deliver(self, sock, payload, src):
         if self.sockets.get((sock.addr, sock.chan)) is not sock:
